@@ -389,6 +389,8 @@ func TestVerifC29Exact(t *testing.T) {
 	t.Cleanup(kit.Flush)
 	nWindows := kit.EnvInt("C29_WINDOWS", 5)
 
+	rbCalibrate(t)
+
 	rapid.Check(t, func(t *rapid.T) {
 		spec := rbGenSpec(t, rbGenOpts{MinSessions: 1, MaxSessions: 3, MinSegs: 1, MaxSegs: 3, Ragged: true})
 		ragged := rbIsRagged(spec)
@@ -401,17 +403,18 @@ func TestVerifC29Exact(t *testing.T) {
 
 		built, err := rbBuild(dir, spec)
 		if err != nil {
-			if strings.Contains(err.Error(), errRBTimeout.Error()) {
-				fmt.Println("VERIF-INCONCLUSIVE: " + err.Error())
-			}
-			t.Fatalf("recording builder: %v\nspec: %s", err, spec)
+			rbInconclusive(t, "%v\nspec: %s", err, spec)
 		}
+		rbNoteLog(rec.Note, built)
 		disk, problems := rbLoadDisk(built)
 		if len(problems) != 0 {
-			t.Fatalf("the recorder did not put the fed timeline on disk: %v\nspec: %s", problems, spec)
+			// C29 is about what playback returns for recordings made by the server; a recording that does not
+			// hold the fed timeline is the subject of C27, here it only means that there is no ground truth
+			rbInconclusive(t, "the recorder did not put the fed timeline on disk (see C27): %v\nspec: %s", problems, spec)
 		}
 
-		srv := rbNewServer(built.PathConfs())
+		srv := rbNewServer(t, built.PathConfs())
+		defer srv.Close()
 
 		// quantisation: file names carry microseconds, mvhd durations milliseconds, timestamps ticks
 		listTol := 2 * time.Microsecond
@@ -718,6 +721,7 @@ func c29Layout(ds *rbDiskSession, spec *rbSpec, s time.Time) string {
 
 func c29RegressRecording(t *testing.T, videoMs, gop, audioMs, audioStartMs int, order uint64) (*rbSpec, []rbDiskSession, *Server) {
 	t.Helper()
+	rbCalibrate(t)
 	dir, err := os.MkdirTemp(os.Getenv("VERIF_WORKDIR"), "c29r-")
 	if err != nil {
 		t.Fatal(err)
@@ -729,13 +733,15 @@ func c29RegressRecording(t *testing.T, videoMs, gop, audioMs, audioStartMs int, 
 	}
 	built, err := rbBuild(dir, spec)
 	if err != nil {
-		t.Fatalf("builder: %v", err)
+		rbInconclusive(t, "builder: %v", err)
 	}
 	disk, problems := rbLoadDisk(built)
 	if len(problems) != 0 {
-		t.Fatalf("builder: %v", problems)
+		rbInconclusive(t, "builder: %v", problems)
 	}
-	return spec, disk, rbNewServer(built.PathConfs())
+	srv := rbNewServer(t, built.PathConfs())
+	t.Cleanup(srv.Close)
+	return spec, disk, srv
 }
 
 // video every 20 ms, audio every 40 ms from +27 ms, window = first 310 ms of the recording: the audio sample at +307 ms
@@ -785,7 +791,7 @@ func TestVerifC29RegressSegmentOverlap(t *testing.T) {
 		}
 	}
 	if target == nil {
-		t.Fatalf("harness: no video sample of a segment lies after the start of the next segment")
+		rbInconclusive(t, "harness: no video sample of a segment lies after the start of the next segment")
 	}
 	s := target.Fed.T.Add(-time.Millisecond)
 	for _, format := range []string{"fmp4", "mp4"} {
